@@ -428,7 +428,7 @@ func C14(c *Ctx) {
 		c.R.Check(okOne, "C14-R2", "mcrew Route: a machine id addresses exactly that machine", c.P.Pos(route.Pos()), "singleton", "a routing target does not yield exactly the named machine")
 	}
 	// ---- R3 queue in ProcessMsg
-	cq := findCrewQueue(pm)
+	cq := findCrewQueue(c.P, pm)
 	if cq == nil {
 		c.R.Violate("C14-R3", "ProcessMsg: pending queue", c.P.Pos(pm.Pos()), "the pending queue is not a slice variable whose first element is taken in a loop (cannot establish FIFO order)")
 	} else {
@@ -436,6 +436,31 @@ func C14(c *Ctx) {
 		okQ := true
 		var why []string
 		pops, pushes := 0, 0
+		// inCycle: the instruction can run more than once per ProcessMsg call: it is on a cycle of its function, or it
+		// sits in a helper / method that the dequeue loop runs
+		inCycle := func(in ssa.Instruction) bool {
+			if flow.InCycle(in.Block()) {
+				return true
+			}
+			if in.Parent() == pm {
+				return false
+			}
+			site := w.liftTo(pm, in)
+			return site == nil || flow.InCycle(site.Block())
+		}
+		// nilBack: a helper the queue is handed to can give back no queue
+		nilBack := func(cl *ssa.Call, idx int) bool {
+			h := cl.Common().StaticCallee()
+			if h == nil {
+				return true
+			}
+			for _, b := range h.Blocks {
+				if ret, isRet := b.Instrs[len(b.Instrs)-1].(*ssa.Return); isRet && idx < len(ret.Results) && ssau.IsNilConst(ret.Results[idx]) {
+					return true
+				}
+			}
+			return false
+		}
 		for _, m := range w.members(cq.q) {
 			switch v := m.(type) {
 			case *ssa.Slice:
@@ -453,7 +478,7 @@ func C14(c *Ctx) {
 					why = append(why, "queue re-sliced as "+v.String())
 					continue
 				}
-				if _, isAl := v.X.(*ssa.Alloc); isAl && !flow.InCycle(v.Block()) {
+				if _, isAl := v.X.(*ssa.Alloc); isAl && !inCycle(v) {
 					continue // initial make / literal
 				}
 				okQ = false
@@ -463,20 +488,32 @@ func C14(c *Ctx) {
 					pushes++
 					continue
 				}
+				if w.linked[v] && !nilBack(v, 0) {
+					continue // the queue comes back from the helper it was handed to (the helper's code is part of the web)
+				}
 				okQ = false
 				why = append(why, "queue assigned "+v.String())
 			case *ssa.MakeSlice:
-				if flow.InCycle(v.Block()) {
+				if inCycle(v) {
 					okQ = false
 					why = append(why, "queue re-made inside the loop")
 				}
 			case *ssa.Phi, *ssa.Alloc, *ssa.FreeVar:
+			case *ssa.FieldAddr:
+				// the queue is kept in a field of a struct local to ProcessMsg
 			case *ssa.UnOp:
 				if v.Op != token.MUL {
 					okQ = false
 					why = append(why, "queue assigned "+v.String())
 				}
 			default:
+				if ex, isEx := m.(*ssa.Extract); isEx && w.linked[m] {
+					if cl, isCl := ex.Tuple.(*ssa.Call); isCl && !nilBack(cl, ex.Index) {
+						continue // result through which the queue comes back from a helper
+					}
+				} else if _, isPar := m.(*ssa.Parameter); isPar && w.linked[m] {
+					continue // parameter through which the queue is handed to a helper
+				}
 				okQ = false
 				why = append(why, "queue assigned "+m.String())
 			}
